@@ -3,7 +3,10 @@
 id=$1; patch=$2; shift 2; checks=${@:-$id}
 # one mutation run at a time: the scratch copy and the working files of bin/check are shared
 exec 9>/tmp/run_seed.lock; flock 9
-rsync -a --delete --exclude target --exclude .git /repo/ /tmp/mut/repo/ || exit 2
+# files restored by rsync keep their (old) mtime: cargo would consider crates built from the previous patch fresh.
+# Touch every file rsync changes so that the affected crates are rebuilt.
+mkdir -p /tmp/mut/repo
+rsync -ai --delete --exclude target --exclude .git /repo/ /tmp/mut/repo/ | awk '$1 ~ /^>f/ {print $2}' | while read f; do touch "/tmp/mut/repo/$f"; done
 (cd /tmp/mut/repo && patch -p1 -s < $patch) || { echo "patch failed"; exit 2; }
 cd /verif
 for c in $checks; do
